@@ -251,6 +251,9 @@ def main():
     lit = (f'({model_lit}, {c_state(rm, rid, oid)}, {vlib.coq_list(pairs)}, '
            f'{vlib.coq_list(tok_rows)}, '
            f'{vlib.coq_list([vlib.coq_list([vlib.coq_bool(b) for b in x]) for x in adj])}, {st_lit})')
+    if os.environ.get('VERIF_DUMP_CASE') == str(len(cases)):
+      with open(os.environ.get('VERIF_DUMP_FILE', '/tmp/vf_case.json'), 'w') as _f:
+        json.dump({'model_hex': mb.hex(), 'recipe': desc, 'info': {k_: v_ for k_, v_ in info.items() if isinstance(v_, (int, str, list, bool))}}, _f)
     cases.append((lit, ctx, m, stats0, caller, impl, desc, qout))
   shards = vlib.shard(list(range(len(cases))), 40)
   files = [(f'plan_{si}', PRELUDE +
